@@ -7,6 +7,9 @@ use std::error::Error;
 use std::fmt;
 
 const CR: u8 = b'\r';
+// Arrays nested deeper than this are rejected: the parser and every walk over a parsed
+// value recurse once per nesting level.
+const MAX_ARRAY_NESTING: usize = 128;
 
 #[derive(Debug)]
 pub enum ParseError {
@@ -38,6 +41,10 @@ pub fn parse_indexed_resp(buf: &mut BytesMut) -> Result<IndexedResp, ParseError>
 }
 
 pub fn parse_resp(buf: &[u8]) -> Result<(RespIndex, usize), ParseError> {
+    parse_nested_resp(buf, 0)
+}
+
+fn parse_nested_resp(buf: &[u8], depth: usize) -> Result<(RespIndex, usize), ParseError> {
     if buf.is_empty() {
         return Err(ParseError::NotEnoughData);
     }
@@ -67,7 +74,10 @@ pub fn parse_resp(buf: &[u8]) -> Result<(RespIndex, usize), ParseError> {
             Ok((RespIndex::Error(v), 1 + consumed))
         }
         b'*' => {
-            let (mut v, consumed) = parse_array(next_buf)?;
+            if depth >= MAX_ARRAY_NESTING {
+                return Err(ParseError::InvalidProtocol);
+            }
+            let (mut v, consumed) = parse_nested_array(next_buf, depth + 1)?;
             v.advance(1);
             Ok((RespIndex::Arr(v), 1 + consumed))
         }
@@ -78,7 +88,12 @@ pub fn parse_resp(buf: &[u8]) -> Result<(RespIndex, usize), ParseError> {
     }
 }
 
+#[cfg(test)]
 fn parse_array(buf: &[u8]) -> Result<(ArrayIndex, usize), ParseError> {
+    parse_nested_array(buf, 1)
+}
+
+fn parse_nested_array(buf: &[u8], depth: usize) -> Result<(ArrayIndex, usize), ParseError> {
     let (len, mut consumed) = parse_len(buf)?;
     if len < 0 {
         return Ok((ArrayIndex::Nil, consumed));
@@ -90,7 +105,7 @@ fn parse_array(buf: &[u8]) -> Result<(ArrayIndex, usize), ParseError> {
 
     for _ in 0..array_size {
         let next_buf = buf.get(consumed..).ok_or(ParseError::InvalidProtocol)?;
-        let (mut v, element_consumed) = parse_resp(next_buf)?;
+        let (mut v, element_consumed) = parse_nested_resp(next_buf, depth)?;
         v.advance(consumed);
         consumed += element_consumed;
         array.push(v);
